@@ -44,7 +44,7 @@ impl Property for C12 {
         "C12"
     }
     fn rule(&self) -> String {
-        "sessions over a root r.td that includes i.td, where disk texts and editor buffers differ observably (each variant of i.td declares a differently named class, each variant of r.td uses one buffer class and the disk class, so outline and 'class not found' diagnostics reveal which text was analysed). Events: open/change of r.td or i.td with one of two buffer variants (a change of an unopened document is an open), close of either document (the disk is the truth again; checked at the next analysed step), a touch of an unrelated third document (root of a workspace without r.td and i.td), a change of r.td to a text without its include, and didSave of either document (no effect on which text is the truth; the disk keeps differing from the buffer, as after an external rewrite): every sequence of length <= 4 (thorough <= 5) over the 4 (document, variant) events, 2 closes, 2 saves and the 2 workspace-leaving events exhaustively (plus family reopened-documents: 1..3 further edits, a close, a re-open and an edit of the same document, with per-document version numbers that start over at every didOpen), each with i.td present on disk, with i.td never saved (no file on disk), and with an i.td that includes r.td back (include cycle through every edited document) and - sequences of length <= 3 (thorough <= 4) - in a workspace directory the editor reaches through a symbolic link, and while another program rewrites both files on disk after every analysed step (buffer variant 0 then being the text on disk at that moment: a document opened unmodified). Reference session model: texts = disk overlaid by the buffers of opened documents, root = last touched document. After every step the last published diagnostics of every file of the model's workspace and the documentSymbol answer of every open document in it must equal a fresh ide-level analysis over the model's texts. distinct = digest of the event sequence; non-trivial = a step at which an open included document's buffer differs from disk while the other document is (re)analysed".into()
+        "sessions over a root r.td that includes i.td, where disk texts and editor buffers differ observably (each variant of i.td declares a differently named class, each variant of r.td uses one buffer class and the disk class, so outline and 'class not found' diagnostics reveal which text was analysed). Events: open/change of r.td or i.td with one of two buffer variants (a change of an unopened document is an open), close of either document (the disk is the truth again; checked at the next analysed step), a touch of an unrelated third document (root of a workspace without r.td and i.td), a change of r.td to a text without its include, and didSave of either document (no effect on which text is the truth; the disk keeps differing from the buffer, as after an external rewrite): every sequence of length <= 4 (thorough <= 5) over the 4 (document, variant) events, 2 closes, 2 saves and the 2 workspace-leaving events exhaustively (plus family reopened-documents: 1..3 further edits, a close, a re-open and an edit of the same document, with per-document version numbers that start over at every didOpen), each with i.td present on disk, with i.td never saved (no file on disk), and with an i.td that includes r.td back (include cycle through every edited document) and - sequences of length <= 3 (thorough <= 4) - in a workspace directory the editor reaches through a symbolic link, and while another program rewrites both files on disk after every analysed step (buffer variant 0 then being the text on disk at that moment: a document opened unmodified), and in a directory whose name has characters (`+`, `[`, `]`, a blank) that the client escapes in its URIs and URL libraries do not. Reference session model: texts = disk overlaid by the buffers of opened documents, root = last touched document. After every step the last published diagnostics of every file of the model's workspace and the documentSymbol answer of every open document in it must equal a fresh ide-level analysis over the model's texts. distinct = digest of the event sequence; non-trivial = a step at which an open included document's buffer differs from disk while the other document is (re)analysed".into()
     }
     fn assumptions(&self) -> Vec<String> {
         vec!["the disk is modified during a session only in the external-writes flavour (then after an analysed step, never during one); the model takes the last touched document as root because that is what didOpen/didChange do; a close triggers no analysis, so its effect is observed at the next open/change".into()]
@@ -91,6 +91,11 @@ impl Property for C12 {
                     // analysed step), and where buffer variant 0 is the text that is on disk at that moment
                     // (a document opened unmodified): an open document is its buffer all the same
                     if len <= symlinked_upto && !emit(json!({"kind": "buffer-session", "events": ev, "external_writes": true})) {
+                        return;
+                    }
+                    // the same session in a directory whose name has characters that editors escape in URIs and
+                    // URL libraries do not (`+`, `[`, `]`), with a client that escapes them: one file, two spellings
+                    if len <= symlinked_upto && !emit(json!({"kind": "buffer-session", "events": ev, "escaped_uris": true})) {
                         return;
                     }
                     let mut k = len;
@@ -153,7 +158,13 @@ impl Property for C12 {
     }
     fn run_case(&self, _ctx: &Ctx, case: &Case) -> Verdict {
         let Some(events) = case["events"].as_array() else { return Verdict::Skip("malformed-case") };
-        let tw = if case["symlinked"].as_bool() == Some(true) { crate::lspc::TempWs::new_symlinked() } else { crate::lspc::TempWs::new() };
+        let tw = if case["symlinked"].as_bool() == Some(true) {
+            crate::lspc::TempWs::new_symlinked()
+        } else if case["escaped_uris"].as_bool() == Some(true) {
+            crate::lspc::TempWs::new_special()
+        } else {
+            crate::lspc::TempWs::new()
+        };
         let Some(mut s) = LspSession::start_in(tw) else { return Verdict::Skip("initialize-failed") };
         let no_disk_i = case["no_disk_i"].as_bool() == Some(true);
         let cyclic = case["cyclic"].as_bool() == Some(true);
